@@ -218,7 +218,8 @@ type Stmt struct {
 	Lhs    []Lhs     `json:"lhs,omitempty"`
 	Rhs    []*Expr   `json:"rhs,omitempty"`
 	Bare   bool      `json:"bare,omitempty"`
-	Head   string    `json:"head,omitempty"` // "if", "ifelse", "switch", "for", "block"
+	Head   string    `json:"head,omitempty"`  // "if", "ifelse", "elseif", "switch", "typeswitch", "select", "for", "range", "block"
+	Label  bool      `json:"label,omitempty"` // group only: the statement carries a label (`L3: for … {`), used inside its first block
 	Blocks [][]*Stmt `json:"blocks,omitempty"`
 	Raw    string    `json:"raw,omitempty"`
 
@@ -226,13 +227,13 @@ type Stmt struct {
 }
 
 type Func struct {
-	Name    string  `json:"name"`
-	Pkg     int     `json:"pkg"`
-	Method  bool    `json:"method,omitempty"` // method of *T (receiver t)
-	IsLit   bool    `json:"is_lit,omitempty"` // function literal (printed where it is used)
-	Iface   bool    `json:"iface,omitempty"`  // method of interface I: no body, not in the model's table as a body
-	Cb      int     `json:"cb"`               // kind of the callback parameter (index into cbKinds)
-	Res     []Res   `json:"res"`
+	Name   string `json:"name"`
+	Pkg    int    `json:"pkg"`
+	Method bool   `json:"method,omitempty"` // method of *T (receiver t)
+	IsLit  bool   `json:"is_lit,omitempty"` // function literal (printed where it is used)
+	Iface  bool   `json:"iface,omitempty"`  // method of interface I: no body, not in the model's table as a body
+	Cb     int    `json:"cb"`               // kind of the callback parameter (index into cbKinds)
+	Res    []Res  `json:"res"`
 	// named results of equal type are printed as one field, `(r0, r1 string, r2 error)`: the number of
 	// result FIELDS is then smaller than the number of results
 	Grouped bool    `json:"grouped,omitempty"`
